@@ -275,6 +275,7 @@ impl WireLens {
             "roundtrip" => self.roundtrip(idx, scn, out),
             "garbage" => self.garbage(idx, scn, out),
             "messages" => self.messages(idx, scn, out),
+            "crypto" => self.crypto(idx, scn, out),
             k => Err(format!("unknown kind {k}")),
         }
     }
@@ -414,6 +415,60 @@ impl WireLens {
         drop(http);
         let _ = srv::stop(inc, false);
         let _ = std::fs::remove_dir_all(&dir);
+        Ok(())
+    }
+
+    /// The encryptor the server and the SDK share (C19): for EVERY length 0..=600 (and some larger ones) decrypt(encrypt(x)) = x,
+    /// the ciphertext does not contain the plaintext, another key and every truncation / bit flip give an error - never a
+    /// panic, never different content.
+    fn crypto(&self, idx: usize, scn: &Scenario, out: &mut TraceWriter) -> Result<(), String> {
+        use iggy::utils::crypto::{Aes256GcmEncryptor, Encryptor};
+        let a = Aes256GcmEncryptor::from_base64_key(srv::ENC_KEY_A).map_err(|e| e.to_string())?;
+        let b = Aes256GcmEncryptor::from_base64_key(srv::ENC_KEY_B).map_err(|e| e.to_string())?;
+        out.emit(&json!({"ev":"reset","sc":idx,"id":scn.id,"kind":"crypto"}));
+        let mut rng = Rng(scn.seed ^ 0xc19);
+        let mut lens: Vec<usize> = (0..=600).collect();
+        lens.extend([1023, 1024, 1025, 4095, 4096, 65535, 65536, 1_000_000]);
+        let guard = |f: &dyn Fn() -> Result<Vec<u8>, iggy::error::IggyError>| -> (String, Vec<u8>) {
+            match std::panic::catch_unwind(std::panic::AssertUnwindSafe(f)) {
+                Ok(Ok(v)) => ("ok".into(), v),
+                Ok(Err(_)) => ("error".into(), vec![]),
+                Err(_) => ("panic".into(), vec![]),
+            }
+        };
+        for (i, n) in lens.iter().enumerate() {
+            let plain: Vec<u8> = (0..*n).map(|_| rng.next() as u8).collect();
+            let (er, ct) = guard(&|| a.encrypt(&plain));
+            let (dr, back) = guard(&|| a.decrypt(&ct));
+            let (wr, wrong) = guard(&|| b.decrypt(&ct));
+            // damaged ciphertexts: a few truncations and single bit flips
+            let mut damaged_ok = 0u64;
+            let mut damaged_panic = 0u64;
+            let mut tried = 0u64;
+            if er == "ok" {
+                let mut cuts: Vec<usize> = vec![0, 1, 11, 12, 13, 27, 28, 29, ct.len().saturating_sub(1)];
+                cuts.retain(|c| *c < ct.len());
+                for c in cuts {
+                    tried += 1;
+                    let (r, v) = guard(&|| a.decrypt(&ct[..c]));
+                    if r == "ok" && v != plain[..] { damaged_ok += 1 } else if r == "ok" { damaged_ok += 1 }
+                    if r == "panic" { damaged_panic += 1 }
+                }
+                for _ in 0..4 {
+                    tried += 1;
+                    let mut x = ct.clone();
+                    let pos = rng.below(x.len() as u64) as usize;
+                    x[pos] ^= 1 << rng.below(8);
+                    let (r, _) = guard(&|| a.decrypt(&x));
+                    if r == "ok" { damaged_ok += 1 }
+                    if r == "panic" { damaged_panic += 1 }
+                }
+            }
+            let contains_plain = *n >= 8 && ct.windows(*n.min(&16)).any(|w| w == &plain[..*n.min(&16)]);
+            out.emit(&json!({"ev":"crypto","sc":idx,"i":i + 1,"n":n,"encrypt":er,"decrypt":dr,"equal":back == plain,"other_key":wr,
+                             "other_key_equal": wr == "ok" && wrong == plain, "in_clear":contains_plain,
+                             "damaged_tried":tried,"damaged_ok":damaged_ok,"damaged_panic":damaged_panic}));
+        }
         Ok(())
     }
 
